@@ -752,7 +752,7 @@ impl Engine for Wire {
 
 fn wire_describe(_prop: &str) -> EngineDescription {
     EngineDescription {
-        rule: "Each run is a batch of 8–24 records. An encoder node builds values of Transaction (all six kinds via TransactionBuilder + precomputed metadata, via the plain constructors, and 1 in 48 via the repository's TransactionFactory driven by StdRng seeded from the run's stream; then structural mutations: duplicated/removed/swapped inputs, witness indices out of range, no/empty/extra witnesses, replaced policies, emptied script, duplicate storage slots, proof-set edits, …), Input (7 variants), Output (5), Receipt (13), Policies, StorageSlot, UtxoId, TxPointer, and writes them through SimOutput (canonical::Output; write fails at byte k = torn record). The medium applies ≤ 3 faults per record: truncation (empty / inside an integer word / inside padding / at a field boundary / inside a byte string / near the end), 1–3 bit flips (half aimed at the low bytes of integer words), 8-byte word overwrites aimed via a write-trace layout map at discriminants, nested discriminants, vector length prefixes and counts (2^32, 2^63, VEC_DECODE_LIMIT−1/±0/+1, ±1, ×2, …), policy bit masks (unknown bits, dirty padding), 16/32-bit index fields; a zeroed 8-aligned block; a second record concatenated; trailing garbage; the record handed to the wrong decoder. A decoder node reads through SimInput (canonical::Input; EOF at byte k; the k-th read/skip/peek refused although bytes remain) with Transaction/Input/Output/Receipt::decode (and the four small types' decoders) and keeps decoding records until the stream ends or a decode fails. Oracles: no panic; Ok(v) ⇒ consumed == v.size() == v.to_bytes().len(), decode(v.to_bytes()) == Ok(v) consuming everything and re-encoding identically, and no stream call was refused; a record that reached the decoder exactly as written (also behind an intact first record) must decode to a value whose re-encoding equals what was sent; a refused write ⇒ encode returns Err. A third of all runs is fault-free. A run is non-trivial when a decoder returned Ok on a faulted record or failed after consuming ≥ 64 bytes; distinct = distinct event digests (wire bytes + per-decode outcome) among those.".into(),
+        rule: "Each run is a batch of 8–24 records. An encoder node builds values of Transaction (all six kinds via TransactionBuilder + precomputed metadata, via the plain constructors, and 1 in 48 via the repository's TransactionFactory driven by StdRng seeded from the run's stream; then structural mutations: duplicated/removed/swapped inputs, witness indices out of range, no/empty/extra witnesses, replaced policies, emptied script, duplicate storage slots, proof-set edits, …), Input (7 variants), Output (5), Receipt (13), Policies, StorageSlot, UtxoId, TxPointer, and writes them through SimOutput (canonical::Output; write fails at byte k = torn record). The medium applies ≤ 3 faults per record: truncation (empty / inside an integer word / inside padding / at a field boundary / inside a byte string / near the end), 1–3 bit flips (half aimed at the low bytes of integer words), 8-byte word overwrites aimed via a write-trace layout map at discriminants, nested discriminants, vector length prefixes and counts (2^32, 2^63, VEC_DECODE_LIMIT−1/±0/+1, ±1, ×2, …), policy bit masks (unknown bits, dirty padding), 16/32-bit index fields; a zeroed 8-aligned block; a second record concatenated; trailing garbage; the record handed to the wrong decoder. A decoder node reads through SimInput (canonical::Input; EOF at byte k; the k-th read/skip/peek refused although bytes remain) with Transaction/Input/Output/Receipt::decode (and the four small types' decoders) and keeps decoding records until the stream ends or a decode fails. Oracles: no panic; Ok(v) ⇒ consumed == v.size() == v.to_bytes().len(), decode(v.to_bytes()) == Ok(v) consuming everything and re-encoding identically, and no stream call was refused; a record that reached the decoder exactly as written (also behind an intact first record) must decode to a value whose re-encoding equals what was sent; a refused write ⇒ encode returns Err. One run in 16 384 additionally decodes a witness of VEC_DECODE_LIMIT−1 / ±0 / +1 bytes built at run time (accepted up to the limit with consumed == size and an identical re-encoding, refused above it). A third of all runs is fault-free. A run is non-trivial when a decoder returned Ok on a faulted record or failed after consuming ≥ 64 bytes; distinct = distinct event digests (wire bytes + per-decode outcome) among those.".into(),
         real_components: vec![
             "fuel_types::canonical::{Serialize, Deserialize} impls for primitives, Vec<T>, [T; N] and the derive macros (fuel-derive)".into(),
             "fuel_tx::{Transaction, Input, Output, Receipt, Policies, StorageSlot, UtxoId, TxPointer, Witness} encode / decode / size".into(),
